@@ -115,22 +115,23 @@ func pick[T any](d Drawer, label string, xs ...T) T { return xs[d.Int(0, len(xs)
 func DrawWorld(d Drawer, p *Profile) WorldOpts {
 	nTab := []int{3, 3, 3, 3, 5, 5, 1, 2, 4, 4}
 	N := nTab[d.Int(0, len(nTab)-1, "N")]
-	if pct(d, p.PSingle, "single") {
-		N = pick(d, "singleN", 1, 2)
+	if single, sn := pct(d, p.PSingle, "single"), pick(d, "singleN", 1, 2); single {
+		N = sn
 	}
-	if p.PBigGroup > 0 && pct(d, p.PBigGroup, "biggroup") {
-		N = d.Int(8, 10, "bigN")
+	if big, bn := pct(d, p.PBigGroup, "biggroup"), d.Int(8, 10, "bigN"); p.PBigGroup > 0 && big {
+		N = bn
 	}
 	w := WorldOpts{Nodes: map[uint64]NodeOpts{}}
 	for i := 1; i <= N; i++ {
 		w.IDs = append(w.IDs, uint64(i))
 	}
 	members := N
-	if N > 1 && pct(d, p.PJoiner, "joiner") {
-		members = d.Int(1, N-1, "members")
+	joiner, mraw := pct(d, p.PJoiner, "joiner"), d.Int(0, 9, "members")
+	if N > 1 && joiner {
+		members = 1 + mraw%(N-1)
 	}
 	learners := 0
-	if members >= 2 && pct(d, 20, "learner") {
+	if lr := pct(d, 20, "learner"); members >= 2 && lr {
 		learners = 1
 	}
 	for i := 1; i <= members-learners; i++ {
@@ -140,17 +141,25 @@ func DrawWorld(d Drawer, p *Profile) WorldOpts {
 		w.Learners = append(w.Learners, uint64(i))
 	}
 	w.BootPeers = pct(d, p.PBootPeers, "bootpeers")
+	bi := uint64(d.Int(1, 3, "bootindex"))
 	if w.BootPeers {
 		// Bootstrap(peers) knows only voters
 		w.Voters = append(w.Voters, w.Learners...)
 		w.Learners = nil
 	} else {
-		w.BootIndex = uint64(d.Int(1, 3, "bootindex"))
+		w.BootIndex = bi
 	}
 	uniPre, uniCQ := pct(d, p.PPreVote, "uprevote"), pct(d, p.PCheckQuorum, "ucheckq")
 	mixed := !p.UniformFeatures && pct(d, 25, "mixed")
-	for _, id := range w.IDs {
-		w.Nodes[id] = drawNodeOpts(d, p, id, uniPre, uniCQ, mixed)
+	// node options are drawn for a fixed number of ids (only the first N are
+	// used) so that the world occupies a fixed number of draws: shrinking N
+	// then does not misalign the rest of the case.
+	const maxIDs = 10
+	for i := 1; i <= maxIDs; i++ {
+		o := drawNodeOpts(d, p, uint64(i), uniPre, uniCQ, mixed)
+		if i <= N {
+			w.Nodes[uint64(i)] = o
+		}
 	}
 	if p.UniformTicks {
 		// CheckQuorum must be uniform for bounded liveness: a node without
@@ -184,18 +193,18 @@ func drawNodeOpts(d Drawer, p *Profile, id uint64, uniPre, uniCQ, mixed bool) No
 	o := NodeOpts{}
 	o.ElectionTick = pick(d, l("et"), 3, 4, 5, 6, 8, 10)
 	o.HeartbeatTick = 1
-	if o.ElectionTick > 3 && pct(d, 30, l("hb2")) {
+	if hb2 := pct(d, 30, l("hb2")); o.ElectionTick > 3 && hb2 {
 		o.HeartbeatTick = 2
 	}
-	o.Timeout = d.Int(o.ElectionTick, 2*o.ElectionTick-1, l("timeout"))
+	o.Timeout = o.ElectionTick + d.Int(0, 9, l("timeout"))%o.ElectionTick
 	o.PreVote, o.CheckQuorum = uniPre, uniCQ
-	if mixed {
-		o.PreVote, o.CheckQuorum = pct(d, p.PPreVote, l("prevote")), pct(d, p.PCheckQuorum, l("checkq"))
+	if mp, mc := pct(d, p.PPreVote, l("prevote")), pct(d, p.PCheckQuorum, l("checkq")); mixed {
+		o.PreVote, o.CheckQuorum = mp, mc
 	}
 	o.Async = pct(d, p.PAsync, l("async"))
 	o.StepDownOnRemoval = pct(d, p.PStepDown, l("stepdown"))
 	o.DisableProposalForwarding = pct(d, p.PNoFwd, l("nofwd"))
-	if o.CheckQuorum && pct(d, p.PLease, l("lease")) {
+	if lease := pct(d, p.PLease, l("lease")); o.CheckQuorum && lease {
 		o.LeaseRead = true
 	}
 	o.LazySync = pct(d, 50, l("lazysync"))
@@ -218,8 +227,9 @@ func drawNodeOpts(d Drawer, p *Profile, id uint64, uniPre, uniCQ, mixed bool) No
 	} else {
 		o.MaxSizePerMsg = pick(d, l("msgsz"), inf, inf, 256, 1024)
 		o.MaxInflightMsgs = pick(d, l("infl"), 256, 8, 4)
-		o.MaxCommittedSizePerReady = pick(d, l("applyq"), uint64(0), inf, 300)
+		_ = pick(d, l("inflb"), 0, 0) // keep the number of draws equal in both branches
 		o.MaxUncommittedEntriesSize = pick(d, l("uncom"), uint64(0), 0, 1000)
+		o.MaxCommittedSizePerReady = pick(d, l("applyq"), uint64(0), inf, 300)
 	}
 	return o
 }
@@ -332,8 +342,38 @@ type choice struct {
 }
 
 // RandomAction draws one enabled action according to the profile's weights.
+// actionDrawer serves the draws of one action from a fixed-width record of
+// raw values (so that every action occupies the same number of draws in
+// rapid's bitstream and whole actions can be deleted or simplified without
+// misaligning the rest of the schedule - this is what makes shrinking work);
+// only macros that need more values fall back to fresh draws.
+type actionDrawer struct {
+	raw  [4]int
+	pos  int
+	base Drawer
+}
+
+func (a *actionDrawer) Int(lo, hi int, label string) int {
+	if hi <= lo {
+		return lo
+	}
+	if a.pos < len(a.raw) {
+		v := a.raw[a.pos]
+		a.pos++
+		return lo + v%(hi-lo+1)
+	}
+	return a.base.Int(lo, hi, label)
+}
+
 func (s *Sim) RandomAction(p *Profile) {
-	d := s.D
+	base := s.D
+	ad := &actionDrawer{base: base}
+	for i := range ad.raw {
+		ad.raw[i] = base.Int(0, 65535, "a")
+	}
+	s.D = ad
+	defer func() { s.D = base }()
+	var d Drawer = ad
 	var cs []choice
 	add := func(kind string, enabled bool, fn func()) {
 		if w := p.W[kind]; enabled && w > 0 {
